@@ -1,13 +1,17 @@
-import BufProofs.Lemmas.GraphLemmas
+import BufProofs.Lemmas.DepsLemmas
 /-
   C10 — Workspace dependency resolution is exact and ambiguity is an error.
   Property theorems over BufModel.Graph.  Proved here: the selection clauses (target over
-  non-target, local over remote), the ambiguity clauses for the imports a module scans (an import
-  nobody provides that is not a well-known type, or one provided twice, makes ModuleDeps fail),
-  the shared DFS facts used by the ls-files closure (closed, reachable-only, fuel suffices), and
-  the recorded pre-fix commit-tie counterexample.  The exactness of `moduleDeps`
-  (deps = reach⁺, direct = first hop, cycle ⇔ r ∈ reach⁺ r) is tied by correspondence and by the
-  implementation-only reachability oracle of harness/cmd/c10; see handoff/C10.md.
+  non-target, local over remote), the ambiguity clauses (an import nobody provides that is not a
+  well-known type, or one provided twice, makes ModuleDeps fail), the exactness of
+  `moduleDeps` = getModuleDeps/getModuleDepsRec as coded — `deps_sound` (a successful call lists
+  exactly reach⁺ r, sorted, direct = first hop, and r is on no cycle; no hypothesis), `deps_exact`
+  (it succeeds whenever everything reachable resolves and r is on no cycle), `cycle_iff` (the
+  cycle error ⇔ r ∈ reach⁺ r; a module that merely reaches a cycle does not report it),
+  `deps_error_sound` (no spurious error), `fuel_suffices` — the same for ModuleSetToDAG
+  (`dag_error_iff`, `dag_reports_reachable_cycle`, `dag_fuel_suffices`), the shared DFS facts used
+  by the ls-files closure, and the recorded pre-fix commit-tie counterexample.
+  The invariant behind the exactness theorems is `DPost` / `deps_post` in Lemmas/DepsLemmas.lean.
 -/
 namespace BufProofs.C10
 open BufModel.Path BufModel.Graph
@@ -231,6 +235,145 @@ theorem no_proto_files_error (ws : WS) (r : Nat) (he : (modFiles ws r).isEmpty =
     obtain ⟨_, _, hne⟩ := moduleDeps_ok_scan ws r ds hm
     rw [he] at hne; exact absurd hne (by simp)
 
+/-! ### exactness of `ModuleDeps()` (getModuleDeps / getModuleDepsRec as coded)
+
+  The module graph is `msucc ws m` = the owners, other than `m`, of the imports of the files of
+  `m`; `Reach` / `ReachPlus` are zero-or-more / one-or-more hops along it. `Good ws r` says that
+  everything reachable from `r` resolves: every import has exactly one provider (or none and is a
+  well-known type), every reachable module has a .proto file, no two reachable modules share a
+  file path. -/
+
+/-- Soundness of a successful `ModuleDeps()` call, for EVERY module set (no hypothesis):
+    if `moduleDeps ws r = ok ds` then `r` lies on no cycle, the ids of `ds` are exactly the
+    modules reachable from `r` in one or more import hops, listed in strictly increasing order,
+    and an entry is flagged direct iff its module is a first-hop successor of `r`. -/
+theorem deps_sound (ws : WS) (r : Nat) (ds : DepMap) (h : moduleDeps ws r = .ok ds) :
+    ¬ ReachPlus (msuccO ws) r r ∧
+    (∀ x, x ∈ DepMap.keys ds ↔ ReachPlus (msuccO ws) r x) ∧
+    (DepMap.keys ds).Pairwise (· < ·) ∧
+    (∀ x b, (x, b) ∈ ds → (b = true ↔ x ∈ msucc ws r)) := by
+  obtain ⟨h1, h2, h3, h4, _⟩ := moduleDeps_ok h
+  exact ⟨h1, h2, h3, fun x b hxb => h4 (x, b) hxb⟩
+
+/-- Exactness: if everything reachable from `r` resolves (`Good`) and `r` itself lies on no cycle
+    (cycles elsewhere — even reachable ones — are allowed: that is what the code does), then
+    `ModuleDeps()` succeeds, its ids are the strictly increasing list of reach⁺(r) \ {r}, and a
+    dep is flagged direct iff it is a first-hop successor of `r`. -/
+theorem deps_exact (ws : WS) (r : Nat) (hg : Good ws r) (hn : ¬ ReachPlus (msuccO ws) r r) :
+    ∃ ds, moduleDeps ws r = .ok ds ∧
+      (DepMap.keys ds).Pairwise (· < ·) ∧
+      (∀ x, x ∈ DepMap.keys ds ↔ (ReachPlus (msuccO ws) r x ∧ x ≠ r)) ∧
+      (∀ x b, (x, b) ∈ ds → (b = true ↔ x ∈ msucc ws r)) := by
+  cases hm : moduleDeps ws r with
+  | error e => exact absurd (moduleDeps_error_good hg hm).2 hn
+  | ok ds =>
+    obtain ⟨_, h2, h3, h4⟩ := deps_sound ws r ds hm
+    refine ⟨ds, rfl, h3, fun x => ?_, h4⟩
+    rw [h2]
+    exact ⟨fun hx => ⟨hx, fun hh => hn (hh ▸ hx)⟩, fun hx => hx.1⟩
+
+/-- "the ids are exactly THE sorted set": any strictly increasing list with the members
+    reach⁺(r) \ {r} is the id list `ModuleDeps()` returns. -/
+theorem deps_exact_unique (ws : WS) (r : Nat) (hg : Good ws r) (hn : ¬ ReachPlus (msuccO ws) r r)
+    (spec : List Nat) (hs : spec.Pairwise (· < ·))
+    (hm : ∀ x, x ∈ spec ↔ (ReachPlus (msuccO ws) r x ∧ x ≠ r)) :
+    ∃ ds, moduleDeps ws r = .ok ds ∧ DepMap.keys ds = spec := by
+  obtain ⟨ds, h1, h2, h3, _⟩ := deps_exact ws r hg hn
+  exact ⟨ds, h1, sorted_set_unique h2 hs (fun x => by rw [h3, hm])⟩
+
+/-- The fuel the model passes to `depsRec` (number of modules + 1) is never exhausted, for every
+    module set and every module (the parent stack is duplicate-free and holds real modules). -/
+theorem fuel_suffices (ws : WS) (r : Nat) : moduleDeps ws r ≠ .error .fuel :=
+  moduleDeps_ne_fuel ws r
+
+/-- Errors are never spurious, for EVERY module set: a `cycle` error means `r` itself lies on a
+    cycle; any other error is either a local error of some module reachable from `r` (an import
+    provided twice / provided by nobody and not a well-known type / no .proto file), or the final
+    duplicate-path check naming two distinct reachable modules with a common path. -/
+theorem deps_error_sound (ws : WS) (r : Nat) (e : DErr) (h : moduleDeps ws r = .error e) :
+    (e = .cycle ∧ ReachPlus (msuccO ws) r r) ∨
+    (∃ x, Reach (msuccO ws) r x ∧ LocalErr ws x e) ∨
+    (e = .dupPath ∧ ∃ x y, Reach (msuccO ws) r x ∧ Reach (msuccO ws) r y ∧ x ≠ y ∧
+      ∃ f ∈ modFiles ws x, hasPath ws y f.path = true) :=
+  moduleDeps_error h
+
+/-- a reported module cycle is real and goes through the module asked (no hypothesis). -/
+theorem cycle_only_if (ws : WS) (r : Nat) (h : moduleDeps ws r = .error .cycle) :
+    ReachPlus (msuccO ws) r r := by
+  rcases moduleDeps_error h with ⟨_, h⟩ | ⟨x, _, h⟩ | ⟨h, _⟩
+  · exact h
+  · exact absurd rfl h.ne_cycle
+  · cases h
+
+/-- The cycle error, as coded: when everything reachable from `r` resolves, `ModuleDeps()` of `r`
+    reports a module cycle iff `r` itself lies on a cycle (`r ∈ reach⁺ r`).  A module that merely
+    REACHES a cycle does not report it (see the example below: A → B → D → B, A → C → D);
+    `ModuleSetToDAG` does (`dag_reports_reachable_cycle`). -/
+theorem cycle_iff (ws : WS) (r : Nat) (hg : Good ws r) :
+    moduleDeps ws r = .error .cycle ↔ ReachPlus (msuccO ws) r r := by
+  constructor
+  · exact cycle_only_if ws r
+  · intro hc
+    cases hm : moduleDeps ws r with
+    | error e => rw [(moduleDeps_error_good hg hm).1]
+    | ok ds => exact absurd hc (moduleDeps_ok hm).1
+
+/-- without any hypothesis: a module on a cycle never gets a dependency list. -/
+theorem cycle_never_ok (ws : WS) (r : Nat) (hc : ReachPlus (msuccO ws) r r) :
+    ∃ e, moduleDeps ws r = .error e := by
+  cases hm : moduleDeps ws r with
+  | error e => exact ⟨e, rfl⟩
+  | ok ds => exact absurd hc (moduleDeps_ok hm).1
+
+/-! ### ModuleSetToDAG (moduleSetToDAGRec as coded: no visited set) -/
+
+/-- The depth bound the model passes to `dagRec` (number of modules + 1) is never exhausted:
+    a module occurring twice on a chain of direct deps lies on a cycle, and then its own
+    `ModuleDeps()` already fails. -/
+theorem dag_fuel_suffices (ws : WS) : toDAG ws ≠ .error .fuel := by
+  intro h
+  obtain ⟨_, _, x, _, hx⟩ := toDAG_error h
+  exact fuel_suffices ws x hx
+
+/-- For EVERY module set: `ModuleSetToDAG` fails iff `ModuleDeps()` fails for some module
+    reachable from a target module, and the error it returns is the error of such a module. -/
+theorem dag_error_iff (ws : WS) :
+    ((∃ e, toDAG ws = .error e) ↔
+      ∃ t ∈ targetMods ws, ∃ x, Reach (msuccO ws) t x ∧ ∃ e, moduleDeps ws x = .error e) ∧
+    (∀ e, toDAG ws = .error e →
+      ∃ t ∈ targetMods ws, ∃ x, Reach (msuccO ws) t x ∧ moduleDeps ws x = .error e) := by
+  refine ⟨⟨?_, ?_⟩, fun e h => toDAG_error h⟩
+  · rintro ⟨e, h⟩
+    obtain ⟨t, ht, x, hx, hxe⟩ := toDAG_error h
+    exact ⟨t, ht, x, hx, e, hxe⟩
+  · rintro ⟨t, ht, x, hx, e, hxe⟩
+    cases hd : toDAG ws with
+    | error e' => exact ⟨e', rfl⟩
+    | ok g =>
+      obtain ⟨ds, hds⟩ := toDAG_ok hd t ht x hx
+      rw [hds] at hxe; cases hxe
+
+/-- When everything reachable from the target modules resolves, `ModuleSetToDAG` reports a module
+    cycle iff some module reachable from a target module lies on a cycle — and that is the only
+    error it can return. -/
+theorem dag_reports_reachable_cycle (ws : WS) (hg : ∀ t ∈ targetMods ws, Good ws t) :
+    (toDAG ws = .error .cycle ↔
+      ∃ t ∈ targetMods ws, ∃ x, Reach (msuccO ws) t x ∧ ReachPlus (msuccO ws) x x) ∧
+    (∀ e, toDAG ws = .error e → e = .cycle) := by
+  have honly : ∀ e, toDAG ws = .error e → e = .cycle ∧
+      ∃ t ∈ targetMods ws, ∃ x, Reach (msuccO ws) t x ∧ ReachPlus (msuccO ws) x x := by
+    intro e h
+    obtain ⟨t, ht, x, hx, hxe⟩ := toDAG_error h
+    obtain ⟨he, hc⟩ := moduleDeps_error_good ((hg t ht).of_reach hx) hxe
+    exact ⟨he, t, ht, x, hx, hc⟩
+  refine ⟨⟨fun h => (honly _ h).2, ?_⟩, fun e h => (honly e h).1⟩
+  rintro ⟨t, ht, x, hx, hc⟩
+  cases hd : toDAG ws with
+  | error e => rw [(honly e hd).1]
+  | ok g =>
+    obtain ⟨ds, hds⟩ := toDAG_ok hd t ht x hx
+    exact absurd hc (moduleDeps_ok hds).1
+
 /-! ### the ls-files closure (shared DFS facts) -/
 
 /-- what `ls-files --include-imports` lists is closed under imports and contains nothing that is
@@ -305,5 +448,59 @@ example : moduleDeps exWs 1 = .error .cycle := by decide
 example : moduleDeps exWs 2 = .error .cycle := by decide
 example : toDAG exWs = .error .cycle := by decide
 example : selectAdded [tieA, { tieB with isLocal := true }] = some { tieB with isLocal := true } := by decide
+
+/-! non-vacuity of the exactness theorems: A → B → D → B, A → C → D (0 = A, 1 = B, 2 = C, 3 = D) -/
+def exWs2 : WS :=
+  { mods := [ { files := [{ path := "a/a.proto".toList, imports := ["b/b.proto".toList, "c/c.proto".toList, "google/protobuf/any.proto".toList] }], isTarget := true, isLocal := true },
+              { files := [{ path := "b/b.proto".toList, imports := ["d/d.proto".toList] }], isTarget := false, isLocal := true },
+              { files := [{ path := "c/c.proto".toList, imports := ["d/d.proto".toList] }], isTarget := false, isLocal := true },
+              { files := [{ path := "d/d.proto".toList, imports := ["b/b.proto".toList] }], isTarget := false, isLocal := false } ],
+    wkt := [{ path := "google/protobuf/any.proto".toList, imports := [] }] }
+
+theorem exWs2_good (r : Nat) (hr : r < 4) : Good exWs2 r := good_of_goodWs (by decide) hr
+
+theorem exWs2_A_not_on_cycle : ¬ ReachPlus (msuccO exWs2) 0 0 := by
+  intro h
+  obtain ⟨m, hm, hc⟩ := reachPlus_pred h
+  have hall : ∀ m, m < exWs2.mods.length → 0 ∉ msucc exWs2 m := by decide
+  exact hall m hm hc
+
+theorem exWs2_B_on_cycle : ReachPlus (msuccO exWs2) 1 1 :=
+  ⟨3, msucc exWs2 3, Reach.step (Reach.refl 1) (rfl : msuccO exWs2 1 = some (msucc exWs2 1)) (by decide), rfl, by decide⟩
+
+-- the hypotheses of `deps_exact` hold for A and C although both reach the cycle B ⇄ D …
+example : Good exWs2 0 ∧ ¬ ReachPlus (msuccO exWs2) 0 0 := ⟨exWs2_good 0 (by decide), exWs2_A_not_on_cycle⟩
+-- … and the result is what the theorem says (and what the real code returns)
+example : moduleDeps exWs2 0 = .ok [(1, true), (2, true), (3, false)] := by decide
+example : moduleDeps exWs2 2 = .ok [(1, false), (3, true)] := by decide
+-- the hypotheses of `cycle_iff` hold for B, which is on the cycle
+example : Good exWs2 1 ∧ ReachPlus (msuccO exWs2) 1 1 := ⟨exWs2_good 1 (by decide), exWs2_B_on_cycle⟩
+example : moduleDeps exWs2 1 = .error .cycle := by decide
+example : moduleDeps exWs2 3 = .error .cycle := by decide
+-- `fuel_suffices` has no hypothesis; the bound is tight enough to be interesting: depth 3 of 4+1
+example : moduleDeps exWs2 0 ≠ .error .fuel := fuel_suffices exWs2 0
+-- the hypotheses of `dag_reports_reachable_cycle` hold; A (the target) reaches the cycle
+example : (∀ t ∈ targetMods exWs2, Good exWs2 t) ∧
+    ∃ t ∈ targetMods exWs2, ∃ x, Reach (msuccO exWs2) t x ∧ ReachPlus (msuccO exWs2) x x :=
+  ⟨fun t ht => exWs2_good t (targetMods_lt ht),
+   0, by decide, 1, Reach.step (Reach.refl 0) (rfl : msuccO exWs2 0 = some (msucc exWs2 0)) (by decide), exWs2_B_on_cycle⟩
+example : toDAG exWs2 = .error .cycle := by decide
+-- an acyclic diamond: ModuleSetToDAG succeeds
+def exWs3 : WS :=
+  { exWs2 with mods := exWs2.mods.set 3 { files := [{ path := "d/d.proto".toList, imports := [] }], isTarget := false, isLocal := false } }
+example : toDAG exWs3 = .ok ([0, 1, 3, 2], [(0, 1), (1, 3), (0, 2), (2, 3)]) := by decide
+
+/-- Why `cycle_iff` (right to left) and `deps_exact` need the resolution hypothesis: errors are
+    reported in visiting order, so on A ⇄ B where A also imports a file nobody provides, A lies on
+    a cycle but `ModuleDeps()` of A reports the missing import, not the cycle. -/
+def exWs4 : WS :=
+  { mods := [ { files := [{ path := "a/a.proto".toList, imports := ["x/missing.proto".toList, "b/b.proto".toList] }], isTarget := true, isLocal := true },
+              { files := [{ path := "b/b.proto".toList, imports := ["a/a.proto".toList] }], isTarget := false, isLocal := true } ],
+    wkt := [] }
+
+theorem cycle_iff_unresolved_counterexample :
+    ReachPlus (msuccO exWs4) 0 0 ∧ moduleDeps exWs4 0 = .error .importNotExist :=
+  ⟨⟨1, msucc exWs4 1, Reach.step (Reach.refl 0) (rfl : msuccO exWs4 0 = some (msucc exWs4 0)) (by decide), rfl, by decide⟩,
+   by decide⟩
 
 end BufProofs.C10
